@@ -12,3 +12,4 @@ import QV.Properties.C20
 import QV.Properties.C21
 import QV.Properties.C22
 import QV.Properties.C17
+import QV.Properties.C31
